@@ -357,3 +357,4 @@ def run(chk, tier, only_rule=None):
     c12.r12_8(chk, tier)
     c05.r05_6(chk, tier, units=['jmespath'], floor=70)
     c05.r05_7(chk, tier, units=['jmespath'], floor=90)
+    c05.r05_14(chk, tier)       # an expression outside the grammar is reported, the compiler does not spin on it
